@@ -387,6 +387,8 @@ impl<T: Types> RaftLog<T> {
         to: u64,
     ) -> impl Iterator<Item = Result<(T::LogId, T::LogPayload), io::Error>> + '_
     {
+        // An inverted range yields nothing instead of panicking.
+        let to = to.max(from);
         self.state_machine.log.range(from..to).map(|(_, log_data)| {
             let log_id = log_data.log_id.clone();
 
